@@ -329,6 +329,139 @@ fn direct_sequences<V: TV>(ctx: &Ctx, m: usize, values: &[V], depth: usize, stat
     }
 }
 
+/// Large slot counts (where an index narrower than usize, a table, or a tree shape that only appears at some size would
+/// show): one structured history per size on a tracker from new(), every step checked against slot minima kept in a plain
+/// array and their maximum kept in an ordered multiset; the whole node array is checked at the end of each phase.
+fn large_size_history<V: TV>(m: usize, val: &dyn Fn(u64) -> V) -> Result<u64, String> {
+    use std::collections::BTreeMap;
+    let r = guarded_mut(|| -> Result<u64, String> {
+        let mut t = MaxTracker::<V>::new(m);
+        let mut mins: Vec<V> = vec![V::get_max(); m];
+        let mut multi: BTreeMap<u64, usize> = BTreeMap::new();
+        multi.insert(V::get_max().to_b(), m);
+        let mut steps = 0u64;
+        let mut step = |t: &mut MaxTracker<V>, mins: &mut Vec<V>, multi: &mut BTreeMap<u64, usize>, k: usize, v: V| -> Result<(), String> {
+            t.update(k, v);
+            if v < mins[k] {
+                let old = mins[k].to_b();
+                let c = multi.get_mut(&old).unwrap();
+                *c -= 1;
+                if *c == 0 {
+                    multi.remove(&old);
+                }
+                *multi.entry(v.to_b()).or_insert(0) += 1;
+                mins[k] = v;
+            }
+            let refmax = V::from_b(*multi.keys().next_back().unwrap());
+            if t.get_value(k).to_b() != mins[k].to_b() {
+                return Err(format!("m={}: after update({}, {:?}) slot holds {:?}, smallest value offered is {:?}", m, k, v, t.get_value(k), mins[k]));
+            }
+            if t.get_max_value().to_b() != refmax.to_b() {
+                return Err(format!("m={}: after update({}, {:?}) reported max {:?}, true max of slot minima {:?}", m, k, v, t.get_max_value(), refmax));
+            }
+            if t.is_update_possible(v) != (v < refmax) || t.is_update_possible(refmax) {
+                return Err(format!("m={}: after update({}, {:?}) is_update_possible disagrees with max {:?}", m, k, v, refmax));
+            }
+            Ok(())
+        };
+        let full = |t: &MaxTracker<V>, mins: &Vec<V>, phase: &str| -> Result<(), String> {
+            let st = St { raw: t.raw().iter().map(|v| v.to_b()).collect(), refmin: mins.iter().map(|v| v.to_b()).collect(), panicked: None };
+            match check_state::<V>(m, &[], &st) {
+                Some(w) => Err(format!("m={} after phase {}: {}", m, phase, w)),
+                None => Ok(()),
+            }
+        };
+        let mu = m as u64;
+        // A: ascending slots, distinct-ish values
+        for k in 0..m {
+            step(&mut t, &mut mins, &mut multi, k, val(1000 + (k as u64 * 7919) % mu))?;
+            steps += 1;
+        }
+        full(&t, &mins, "A")?;
+        // B: descending slots, lower values
+        for k in (0..m).rev() {
+            step(&mut t, &mut mins, &mut multi, k, val(500 + (k as u64 * 104_729) % 401))?;
+            steps += 1;
+        }
+        full(&t, &mins, "B")?;
+        // C: every third slot far down, then a value that improves nothing
+        for k in (0..m).step_by(3) {
+            step(&mut t, &mut mins, &mut multi, k, val(20))?;
+            steps += 1;
+        }
+        for k in 0..m {
+            step(&mut t, &mut mins, &mut multi, k, val(950))?;
+            steps += 1;
+        }
+        full(&t, &mins, "C")?;
+        // D: all slots to one value (ties), in a stride order
+        let mut stride = (m / 2 + 1) | 1;
+        while num::integer::gcd(stride, m) != 1 {
+            stride += 2;
+        }
+        for i in 0..m {
+            step(&mut t, &mut mins, &mut multi, (i * stride) % m, val(10))?;
+            steps += 1;
+        }
+        full(&t, &mins, "D")?;
+        // E: the last slot standing - the max must hold until the very last slot is lowered
+        for k in 0..m {
+            step(&mut t, &mut mins, &mut multi, (k + m / 3) % m, val(5))?;
+            steps += 1;
+        }
+        full(&t, &mins, "E")?;
+        // reset, then only half of the slots
+        t.reset();
+        mins = vec![V::get_max(); m];
+        multi.clear();
+        multi.insert(V::get_max().to_b(), m);
+        full(&t, &mins, "reset")?;
+        for k in (0..m).step_by(2) {
+            step(&mut t, &mut mins, &mut multi, k, val(300 + (k as u64 % 7)))?;
+            steps += 1;
+        }
+        full(&t, &mins, "F")?;
+        Ok(steps)
+    });
+    match r {
+        Ok(x) => x,
+        Err(p) => Err(format!("m={}: panic inside the tracker on a legal update sequence: {}", m, p)),
+    }
+}
+
+fn large_sizes(ctx: &Ctx, thorough: bool) -> (usize, u64) {
+    let mut sizes: Vec<usize> = (9..=300).collect();
+    for k in 9..=17u32 {
+        for d in [-1i64, 0, 1] {
+            sizes.push(((1i64 << k) + d) as usize);
+        }
+    }
+    sizes.extend_from_slice(&[1000, 5000, 50_000, 100_003]);
+    if thorough {
+        sizes.extend_from_slice(&[(1 << 20) - 1, 1 << 20, (1 << 20) + 1, 3_000_001]);
+    }
+    sizes.sort();
+    sizes.dedup();
+    let mut steps = 0u64;
+    let mut reported = false;
+    for &m in &sizes {
+        let a = large_size_history::<f64>(m, &|x| x as f64 * 0.5);
+        let b = large_size_history::<u32>(m, &|x| x as u32);
+        for (vt, r) in [("f64", a), ("u32", b)] {
+            match r {
+                Ok(n) => steps += n,
+                Err(w) => {
+                    if !reported {
+                        reported = true;
+                        ctx.violation(&format!("large-size:{}", vt), &format!("{} tracker, {}", vt, w), json!({"kind": "large", "vtype": vt, "m": m}));
+                    }
+                }
+            }
+        }
+    }
+    (sizes.len(), steps)
+}
+
 pub fn run(ctx: &Ctx) -> i32 {
     let threads = 16;
     let mut spaces = Vec::new();
@@ -421,21 +554,25 @@ pub fn run(ctx: &Ctx) -> i32 {
         direct_sequences::<f64>(ctx, *m, &f64_values(4), *d, &mut stats);
         direct_sequences::<u32>(ctx, *m, &u32_values(4), *d, &mut stats);
     }
+    let (nsizes, lsteps) = large_sizes(ctx, !ctx.quick());
+    println!("C15 large sizes: {} sizes, {} checked steps", nsizes, lsteps);
+    samples.push(json!({"large_size_history": {"m": 32769, "phases": ["A ascending distinct", "B descending lower", "C every third + no-op", "D ties in stride order", "E last slot standing", "reset", "F half of the slots"]}}));
     samples.push(json!({"space": "f64 m=3", "actions_per_state": "update(k,v) for k in 0..3, v in {0.5,1.0,1.5,f64::MAX}; reset",
         "example_path": ["update(2,1.5)", "update(0,0.5)", "update(2,1.0)", "reset"]}));
     samples.push(json!({"direct_sequence": {"m": 2, "acts": acts_to_json(&[Act::Update(1, 2), Act::Update(0, 0), Act::Update(1, 1), Act::Reset])}}));
     let coverage = json!({
         "states": tot_states,
         "transitions": tot_trans,
-        "traces_validated_against_impl": tot_trans as u64 + stats.0,
+        "traces_validated_against_impl": tot_trans as u64 + stats.0 + nsizes as u64 * 2,
         "samples": samples,
         "exhaustive": true,
-        "evaluations": tot_trans as u64 + stats.1,
+        "evaluations": tot_trans as u64 + stats.1 + lsteps,
         "distinct_nontrivial": tot_states,
         "rule": "stateright BFS to a fixed point over (node array, reference minima); every transition re-materialises the real tracker from the node array, applies the real update/reset and reads the node array back; a state is distinct by its node array; invariants: slots = reference minima, each internal node = max of children, root = max of slots, is_update_possible(v) <=> v < max, no internal assertion fires",
         "spaces": spaces,
         "direct_sequences_from_new": {"sequences": stats.0, "steps": stats.1, "configs_m_depth": seqs},
         "search_run_twice_counts_equal": true,
+        "large_sizes": {"sizes": nsizes, "checked_steps": lsteps, "what": "every m in 9..=300, 2^k-1,2^k,2^k+1 for k=9..17, 1000, 5000, 50000, 100003 (thorough: 2^20-1..2^20+1, 3000001): one structured 6-phase history per size and value type from new(), every update checked (slot value, reported max against an ordered multiset of slot minima, is_update_possible), whole node array checked after each phase; not exhaustive in the history"},
     });
     ctx.finish(
         "model_checking",
@@ -443,13 +580,20 @@ pub fn run(ctx: &Ctx) -> i32 {
         vec![
             "hook H1 (verif::MaxTracker) forwards to the crate-private MaxValueTracker without altering it".into(),
             "values outside the alphabet {0.5,1.0,1.5,2.0,MAX} (resp. {0,1,2,3,MAX}) behave like values inside it: the tracker only compares".into(),
-            "slot counts above the explored bound behave like those below".into(),
+            "slot counts above the exhaustively explored bound are covered by one structured history per size only (sizes listed under large_sizes)".into(),
         ],
     )
 }
 
 pub fn replay(_ctx: &Ctx, case: &Value) -> Result<(bool, String), String> {
     let m = case["m"].as_u64().ok_or("m")? as usize;
+    if case["kind"].as_str() == Some("large") {
+        let r = if case["vtype"].as_str() == Some("f64") { large_size_history::<f64>(m, &|x| x as f64 * 0.5) } else { large_size_history::<u32>(m, &|x| x as u32) };
+        return Ok(match r {
+            Ok(n) => (false, format!("{} steps fine", n)),
+            Err(w) => (true, w),
+        });
+    }
     let nv = case["nvalues"].as_u64().ok_or("nvalues")? as usize;
     let acts = acts_from_json(&case["acts"])?;
     match case["vtype"].as_str() {
